@@ -248,6 +248,37 @@ def gen_negE(rng):
     return v, "negative-E"
 
 
+def gen_signs(rng):
+    """every sign combination (negative, zero, positive) of (t, z) and (E, pz), with |z| <, ==, > |t| and |pz| <, ==, > |E|:
+    negative or zero time / energy are unphysical inputs for which the property demands NaN or the ValueError"""
+    v, _ = gen_generic(rng)
+
+    def pair():
+        a = rng.choice([0.0, -0.0, lu(rng, -6, 6), lu(rng, -2, 2), float(rng.randint(1, 9))])
+        rel = rng.choice(["lt", "eq", "gt", "eq-ulp", "zero"])
+        b = {"lt": a * rng.uniform(0.0, 0.999), "eq": a, "gt": a * rng.uniform(1.001, 5.0) + (1.0 if a == 0 else 0.0),
+             "eq-ulp": (nextafter_k(a, rng.choice([-2, -1, 1, 2])) if a != 0 else 0.0),  # no subnormals: underflow is out of scope
+             "zero": 0.0}[rel]
+        sa, sb = rng.choice([-1.0, 1.0]), rng.choice([-1.0, 1.0])
+        return sa * a, sb * abs(b), ("-" if sa < 0 else "+") + ("0" if a == 0 else "") + rel + ("-" if sb < 0 else "+")
+    v["t"], v["z"], tg1 = pair()
+    v["E"], v["pz"], tg2 = pair()
+    return v, "signs/tz:" + tg1[0] + tg1[-1] + "/Epz:" + tg2[0] + tg2[-1]
+
+
+SIGN_GRID = [0.0, -0.0, 1e-3, -1e-3, 1.0, -1.0, 3.0, -3.0, 5.0, -5.0, 1e4, -1e4]
+
+
+def sign_grid_cases():
+    """deterministic: all ordered pairs of SIGN_GRID used both as (t, z) and as (E, pz) — 144 particles"""
+    out = []
+    for i, a in enumerate(SIGN_GRID):
+        for j, b in enumerate(SIGN_GRID):
+            v = dict(t=a, z=b, E=a, pz=b, x=1.0, y=-2.0, px=0.5 if (i + j) % 2 else 0.0, py=0.25 if (i + j) % 3 else 0.0)
+            out.append((v, [211, None, 22][(i + j) % 3], "sign-grid"))
+    return out
+
+
 def gen_pdg(rng):
     return rng.choice([211, -211, 2212, 22, 21, 12, -12, 14, -14, 16, -16, 18, -18, 111, 1, -2, None, 99999, 0])
 
@@ -360,7 +391,8 @@ def correspond(ctx):
     rng = ctx.rng
     ctx.rule = ("particles with log-uniform magnitudes 1e-6..1e6 (on-shell / free / space-like), ultra-relativistic and soft, "
                 "bit-neighbourhoods of every threshold in the methods (1e-10 regulators, 1e-6 phi cut, t=|z|, |E|=|pz|, |E|=p, p=0), "
-                "negative energies, all 2^8 unset subsets x pdg set/unset/massless; all 11 methods per particle; "
+                "negative energies, every sign combination (negative / zero / positive) of (t,z) and (E,pz) with |z| <,==,> |t| "
+                "(random + an exhaustive 12x12 grid), all 2^8 unset subsets x pdg set/unset/massless; all 11 methods per particle; "
                 "non-trivial = at least one method returns a finite value, a vector or raises (i.e. not everything unset); "
                 "distinct by the bit patterns of the 8 attributes + pdg")
     fallback = getattr(ctx, "translator_fallback", False)
@@ -370,7 +402,8 @@ def correspond(ctx):
     cases = []
     for case in corpus():
         cases.append((dict(case["values"]), case.get("pdg"), "corpus"))
-    gens = [gen_generic] * 4 + [gen_ultra] * 2 + [gen_boundary] * 3 + [gen_negE]
+    cases += sign_grid_cases()
+    gens = [gen_generic] * 4 + [gen_ultra] * 2 + [gen_boundary] * 3 + [gen_negE] + [gen_signs] * 2
     for _ in range(n):
         v, tag = rng.choice(gens)(rng)
         cases.append((v, gen_pdg(rng), tag))
@@ -557,7 +590,7 @@ def check_particle(v, pdg, res=None):
         X, Y, Z, PX, PY, PZ = (F(setv[k]) for k in ("x", "y", "z", "px", "py", "pz"))
         ex = [Y * PZ - Z * PY, Z * PX - X * PZ, X * PY - Y * PX]
         mag = [abs(Y * PZ) + abs(Z * PY), abs(Z * PX) + abs(X * PZ), abs(X * PY) + abs(Y * PX)]
-        if r[0] != "vec" or any(not isfinite(c) or abs(F(c) - e) > 4 * EPS * mg for c, e, mg in zip(r[1], ex, mag)):
+        if r[0] != "vec" or any(not isfinite(c) or abs(F(c) - e) > 4 * EPS * mg + Fr(1e-300) for c, e, mg in zip(r[1], ex, mag)):
             bad("angular_momentum-identity", f"angular_momentum()={r!r} != r x p = {[float(e) for e in ex]}", observed=r,
                 expected=[float(e) for e in ex])
     return out
@@ -712,8 +745,13 @@ def search(ctx, budget_s):
         report(check_particle(v, pdg), v, pdg, tag)
         n += 1
     ctx.count("oracle/unset-subsets", n)
+    for v, pdg, tag in sign_grid_cases():  # all sign combinations of (t,z) and (E,pz), exhaustive over a small grid
+        report(check_particle(v, pdg), v, pdg, tag)
+        ctx.case(("oracle",) + canon(v, pdg), True)
+        n += 1
+    ctx.count("oracle/sign-grid", len(SIGN_GRID) ** 2)
     limit = ctx.n(3000, 200000)
-    gens = [gen_generic] * 3 + [gen_ultra] * 2 + [gen_boundary] * 4 + [gen_negE]
+    gens = [gen_generic] * 3 + [gen_ultra] * 2 + [gen_boundary] * 4 + [gen_negE] + [gen_signs] * 3
     negE_finite = 0
     while time.time() - t0 < budget_s and n < limit:
         v, tag = rng.choice(gens)(rng)
